@@ -120,6 +120,10 @@ def gen_trace(name, seed, sessions, frames, flavor="both", writes=False, cancels
     return p, json.loads(out.strip().splitlines()[-1])
 
 
+def chksum_seed(chk):
+    return chk.seed * 100 + 77
+
+
 def sample_trace(chk, path, n=12):
     with open(path) as f:
         ev = [json.loads(next(f)) for _ in range(n)]
@@ -160,6 +164,11 @@ def check_C05(chk):
         if i == 0:
             sample_trace(chk, p)
         trace_validate(chk, f"c05_tv{i}", p, "stream session")
+    # long pre-filled streams read in fixed-size pieces: for > 6120 bytes every read ends inside a frame, so the receive
+    # buffer never drains and has to make room while it holds a partial frame
+    p, info = gen_trace("c05_chunks", chksum_seed(chk), sessions=8 if thorough else 4, frames=600 if thorough else 300,
+                        extra=["--wseg", "2", "--chunks", "1000,64,997,7,500,1021,3,250"])
+    trace_validate(chk, "c05_tv_chunks", p, "long pre-filled stream")
     chk.assumptions += ["frames used in connection runs are classified by the stand-alone Codec (C01-C04 decide whether the codec is right)",
                         "scripted in-memory transports stand for TCP; exhaustive bounds: <=4 frames, lengths {4,8,12}, capacity 12-16 (scaled)"]
 
